@@ -1,12 +1,18 @@
 #!/bin/bash
 # Applies each behaviour-preserving refactoring written by independent sub-agents (selftest/benign/*.diff; each was
 # confirmed by them to keep the 30 baseline tests passing) to a scratch copy and runs EVERY check on it: all must stay silent.
+# BENIGN_JOBS (default 6) patches are evaluated in parallel.
 cd /verif
 ALL=$(tr '\n' ',' < claimed.txt | sed 's/,$//')
-bad=0; n=0
-for p in selftest/benign/*.diff; do
-  n=$((n+1))
+export ALL
+one() {
+  p=$1
   out=$(selftest/apply_seeded.sh /verif/$p "$ALL" 2>&1 | grep -E "VIOLATED|UNDECIDED|FAILED")
-  if [ -n "$out" ]; then bad=$((bad+1)); echo "BENIGN FALSE-ALARM $(basename $p .diff): $(echo "$out" | head -3 | tr '\n' ' ' | cut -c1-300)"; else echo "BENIGN SILENT      $(basename $p .diff)"; fi
-done
+  if [ -n "$out" ]; then echo "BENIGN FALSE-ALARM $(basename $p .diff): $(echo "$out" | head -3 | tr '\n' ' ' | cut -c1-300)"; else echo "BENIGN SILENT      $(basename $p .diff)"; fi
+}
+export -f one
+res=$(ls selftest/benign/*.diff | xargs -P ${BENIGN_JOBS:-6} -I{} bash -c 'one {}' | sort -k3)
+echo "$res"
+n=$(echo "$res" | grep -c '^BENIGN')
+bad=$(echo "$res" | grep -c 'FALSE-ALARM')
 echo "BENIGN $n refactorings, $bad false alarms"
